@@ -567,3 +567,109 @@ def monitor(tier, seed):
            "violations": violations, "samples": [], "wall_s": round(time.time() - t0, 1), "cached": False}
     cache_put("monitor", key, res)
     return res
+
+
+def loops(tier, seed):
+    """C06/C07 spec -> code: every (population, decision function, loop kind) of LoopsMC replayed."""
+    key = key_of("loops", repo_hash(), verif_hash(), tier)
+    c = cache_get("loops", key)
+    if c:
+        c["cached"] = True
+        return c
+    t0 = time.time()
+    binp = build_harness((), False)
+    maxn = 2 if tier == "quick" else 3
+    cfg = os.path.join(BUILD, "tlc", "LoopsMC-%d.cfg" % maxn)
+    os.makedirs(os.path.dirname(cfg), exist_ok=True)
+    with open(cfg, "w") as f:
+        f.write("SPECIFICATION Spec\nCONSTANT MaxN = %d\nINVARIANTS VisitOnce AllVisitedUnlessBreak StopsAtBreak DestroysExactlyFlagged SurvivorsIntact Export\nCHECK_DEADLOCK FALSE\n" % maxn)
+    rc, out, dt = run_tlc("LoopsMC", cfg=cfg, workers=4, timeout=3000)
+    if "No error has been found" not in out:
+        raise ToolError("LoopsMC failed:\n" + out[-3000:])
+    st = tlc_stats(out)
+    items = [json.loads(m.group(1).encode().decode("unicode_escape")) for m in re.finditer(r'<<"LOOP", "(.*)">>', out)]
+    nchunks = 4 if tier == "quick" else 12
+    def render(chunk, ci):
+        lines, expect = [], {}
+        for n, it in enumerate(chunk):
+            variant = (n + ci) % 3
+            lines.append("reset")
+            extra = 1 if variant == 1 else 0
+            caps = [it["na"] + extra + (2 if variant == 2 else 0), it["nb"] + extra, 0, 0]
+            lines.append("init 0 %d %d %d %d" % tuple(caps))
+            h = 0
+            label = {}
+            for ai, (arch, cnt) in enumerate((("A", it["na"]), ("B", it["nb"]))):
+                hs = []
+                if extra and cnt > 0:
+                    lines.append("create 0 %d %d 0" % (ai, n % 4)); xh = h; h += 1
+                for k in range(cnt):
+                    lines.append("create 0 %d %d %d" % (ai, (n + k) % 4, (n + k) % 2 if variant != 2 else 1)); hs.append(h); h += 1
+                if extra and cnt > 0:
+                    lines.append("destroy 0 H%d %s %s" % (xh, "e" if n % 2 else "a", "w" if n % 3 else "a"))
+                    hs = [hs[-1]] + hs[:-1]     # swap-remove of dense index 0 moved the last one to the front
+                for k, hh in enumerate(hs, start=1):
+                    label[(arch, k)] = hh
+            decs = []
+            for arch, ds in (("A", it["decA"]), ("B", it["decB"])):
+                for k, d in enumerate(ds, start=1):
+                    decs.append("H%d=%s" % (label[(arch, k)], d))
+            mac = "iter_destroy" if it["kind"] == "iter_destroy" else ("iter" if n % 2 else "iter_borrow")
+            lines.append("loop 0 0 %s c %s" % (mac, " ".join(decs)))
+            expect[len(lines)] = [label[(v[0], v[1])] for v in it["visits"]]
+        return lines, expect
+    per = (len(items) + nchunks - 1) // nchunks
+    def one(ci):
+        chunk = items[ci * per:(ci + 1) * per]
+        if not chunk:
+            return None
+        lines, expect = render(chunk, ci)
+        sfile = os.path.join(_trace_dir(), "loops-%s-%d.txt" % (key[:8], ci))
+        with open(sfile, "w") as f:
+            f.write("\n".join(lines) + "\n")
+        trace = sfile + ".ndjson"
+        rc, o, dt = sh([binp, "exec", "--in", sfile, "--out", trace], timeout=3000, check=False)
+        if rc != 0:
+            with open(trace, "a") as f:
+                f.write(json.dumps({"op": "crash", "phase": "process", "during": "loops", "signal": -rc if rc < 0 else rc}) + "\n")
+        viol, tst = validate_trace(trace, timeout=6000)
+        # order comparison with the model (a different order is DRIFT, not a violation)
+        same = differ = 0
+        hs = []
+        with open(trace) as f:
+            for line in f:
+                if line.startswith('{"op":"reset"'):
+                    hs = []
+                    continue
+                if '"sl":' not in line:
+                    continue
+                ev = json.loads(line)
+                if ev["op"] in ("create", "create_within"):
+                    hs.append(tuple(ev["out"][1]) if ev["out"][0] == "ok" else None)
+                if ev["op"] == "loop" and ev.get("sl") in expect:
+                    got = [hs.index(tuple(v["tok"])) if tuple(v["tok"]) in hs else -1 for v in ev["visits"]]
+                    if got == expect[ev["sl"]]:
+                        same += 1
+                    else:
+                        differ += 1
+        n, ops = _count_ops(trace)
+        res = {"events": n, "loops": ops.get("loop", 0), "tlc": tst, "order_same": same, "order_differs": differ,
+               "violations": _collect(trace, viol, {"engine": "loops", "script": sfile}), "sample": lines[:9] if ci == 0 else []}
+        if not viol:
+            os.remove(trace)
+            os.remove(sfile)
+        return res
+    with ThreadPoolExecutor(max_workers=min(nchunks, 8)) as ex:
+        parts = [p for p in ex.map(one, range(nchunks)) if p]
+    differ = sum(p["order_differs"] for p in parts)
+    if differ:
+        log("DRIFT: %d loops visit in another order than the index loops of the model (not a violation)" % differ)
+    res = {"engine": "loops", "tier": tier, "max_entities_per_archetype": maxn, "behaviours": len(items), "traces": len(items),
+           "events": sum(p["events"] for p in parts), "loops_run": sum(p["loops"] for p in parts),
+           "visit_order_equal_to_model": sum(p["order_same"] for p in parts), "visit_order_drift": differ,
+           "tlc_states": st.get("distinct", 0) + sum(p["tlc"].get("distinct", 0) for p in parts),
+           "tlc_transitions": st.get("generated", 0) + sum(p["tlc"].get("generated", 0) for p in parts),
+           "violations": [v for p in parts for v in p["violations"]], "samples": [{"script": parts[0]["sample"]}],
+           "exhaustive": True, "wall_s": round(time.time() - t0, 1), "cached": False}
+    cache_put("loops", key, res)
+    return res
